@@ -49,12 +49,14 @@ type World struct {
 	// identities for trees built with the real validator: the ACL owner (may write) and a stranger (no account)
 	ownerID    []byte
 	strangerID []byte
+	keys       *accountdata.AccountKeys
 }
 
 func NewWorld() *World {
 	w := &World{}
 	keys, err := accountdata.NewRandom()
 	must(err)
+	w.keys = keys
 	w.acl, err = list.NewInMemoryDerivedAcl("spaceId", keys)
 	must(err)
 	w.aclHead = w.acl.Head().Id
@@ -114,10 +116,17 @@ func (w *World) Close() {
 
 // Inst is one naming instance: ids of the abstract DAG rendered with a unique fixed-width prefix.
 // String comparison of rendered ids of one instance = numeric comparison of the abstract ids.
+//
+// Changes created LOCALLY on a peer (AddContent) get a real CID as id; the instance remembers the abstract id it
+// stands for (cids / strs).  A CID ("bafy...") is greater than every rendered id ("0000012.00345") of the instance,
+// so the abstract id of a local change must be greater than every other id that replica ever holds (the generators
+// number local changes from 10001 / 20001 and deliver them only to replicas whose own local changes are greater).
 type Inst struct {
 	w    *World
 	pref string
 	raws map[int]*treechangeproto.RawTreeChangeWithId
+	cids map[string]int
+	strs map[int]string
 	// real: raw changes carry a real identity and the tree is built with the real validator
 	real bool
 }
@@ -125,12 +134,16 @@ type Inst struct {
 func (w *World) NewInst() *Inst {
 	w.inst++
 	w.dbCount++
-	return &Inst{w: w, pref: fmt.Sprintf("%07d.", w.inst), raws: map[int]*treechangeproto.RawTreeChangeWithId{}}
+	return &Inst{w: w, pref: fmt.Sprintf("%07d.", w.inst), raws: map[int]*treechangeproto.RawTreeChangeWithId{},
+		cids: map[string]int{}, strs: map[int]string{}}
 }
 
 func (in *Inst) S(id int) string {
 	if id == 0 {
 		return ""
+	}
+	if s, ok := in.strs[id]; ok {
+		return s
 	}
 	return in.pref + fmt.Sprintf("%05d", id)
 }
@@ -142,6 +155,9 @@ func (in *Inst) Ss(ids []int) []string {
 	return r
 }
 func (in *Inst) N(s string) int {
+	if v, ok := in.cids[s]; ok {
+		return v
+	}
 	if !strings.HasPrefix(s, in.pref) {
 		return 99999
 	}
